@@ -16,6 +16,7 @@ import json
 import operator
 import pickle
 import re
+import warnings
 
 import numpy as np
 
@@ -24,14 +25,19 @@ from . import core
 Q = 64
 LIM = 32768
 NOTEXACT = 888888
-POINTS = [(1.0, 0.0, 1.0), (1.5, 0.5, 0.0), (0.0, 1.0, -1.0)]      # ParamAlg.Pts / Q
+BASE = [(1.0, 0.0, 1.0), (1.5, 0.5, 0.0), (0.0, 1.0, -1.0)]        # ParamAlg.Pts[1..3] / Q
+# ParamAlg.Pts / Q: the base points; the same with only y changed; with only z changed; integer points
+POINTS = BASE + [(1.0, 1.0, 1.0), (1.5, 1.5, 0.0), (0.0, 2.0, -1.0)] + [(1.0, 0.0, 1.5), (1.5, 0.5, 0.5), (0.0, 1.0, -0.5)] \
+    + [(1, 0, 1), (2, 1, 0), (0, 1, -1)]
+KCVAL = 0.5 + 1.0j          # tdgl.Constant(KCVAL): expressions linear in it are read in units of it
+_UNIT = [None]
 TIMES = [0, 64, 192]                                                 # ParamAlg.TimeSeq (units of 1/Q)
 ARGS = ["s1", "s2", "s3", "arr"]
 OPS = {"add": operator.add, "sub": operator.sub, "mul": operator.mul, "div": operator.truediv, "pow": operator.pow}
 OPSYM = {"add": "+", "sub": "-", "mul": "*", "div": "/", "pow": "**"}
 
 # mechanism the specification prescribes (repaired) and the mechanism of the pinned classes (design canary)
-MECH = dict(MInitUseCache=True, MClearByOperand=True, MPickleSlots=True, MEqFlat=False, MReuseEqual=False, MRampClamp=False, MCacheKeyBuffer=False, MCacheKeyTime=True)
+MECH = dict(MInitUseCache=True, MClearByOperand=True, MPickleSlots=True, MEqFlat=False, MReuseEqual=False, MRampClamp=False, MCacheKeyXOnly=False, MConstDtype=False, MCacheKeyBuffer=False, MCacheKeyTime=True)
 PINNED = dict(MECH, MInitUseCache=False, MClearByOperand=False, MPickleSlots=False)
 INVARIANTS = ["TypeOK", "EvalIsPointwise", "TimeDepIffSomeOperand", "EqIsStructural", "NestingTotal",
               "ClearCacheTotal", "PickleRoundTrip", "SolverAcceptsComposite"]
@@ -49,7 +55,7 @@ def p3(x, y, z, b=0):
 
 
 def pt(x, y, z, *, t, c=0):
-    return x + 2 * z - c + t
+    return x + y + 2 * z - c + t
 
 
 # twins (ParamAlg: P2b, P3b, PTb): leaves that the library's == cannot tell apart but that compute other values -
@@ -67,12 +73,13 @@ def make_p3(off):
 
 def make_pt(off):
     def ptc(x, y, z, *, t, c=0):
-        return x + 2 * z - c + t + off
+        return x + y + 2 * z - c + t + off
     return ptc
 
 
 TWINS = {"P2b", "P3b", "PTb"}
 SHIPPED = {"RU", "RD", "CF", "CL"}
+CONSTS = {"K2", "K3", "KC2", "KC3"}
 LOOP = dict(current=40.0, radius=1.5, center=(0.3, -0.2, 0.4))      # CurrentLoop(uA, um); potential in mT um
 
 
@@ -120,6 +127,8 @@ def make_leaf(tdgl, k, flavour="exact"):
 
         m = sys.modules["__main__"] if flavour == "main" else importlib.import_module(flavour.split(":", 1)[1])
         return {"P2": lambda: P(m.p2, a=2), "P3": lambda: P(m.p3, b=1), "PT": lambda: P(m.pt, time_dependent=True, c=1)}[k]()
+    if k in CONSTS:
+        return tdgl.Constant(KCVAL if k.startswith("KC") else 0.5, dimensions=int(k[-1]))
     if k in SHIPPED:
         # the leaves the package ships (tdgl.sources), with non-default arguments
         src = tdgl.sources
@@ -180,7 +189,7 @@ def kinds(tree):
 def absval(v, tol=1e-9):
     """A concrete value -> units of 1/Q if it is an exact dyadic of the domain, else NOTEXACT."""
     if isinstance(v, (complex, np.complexfloating)):
-        if v.imag != 0:
+        if abs(v.imag) > 1e-9 * max(1.0, abs(v.real)):
             return NOTEXACT
         v = v.real
     try:
@@ -198,8 +207,11 @@ def absval(v, tol=1e-9):
 
 def observe(fn):
     try:
-        with np.errstate(all="ignore"):
+        with np.errstate(all="ignore"), warnings.catch_warnings():
+            warnings.simplefilter("ignore")
             v = fn()
+            if _UNIT[0] is not None:
+                v = np.asarray(v) / _UNIT[0]     # an expression linear in a leaf of opaque value, in units of that value
     except Exception as e:  # the class of the exception is the observation
         return {"k": "x", "cls": type(e).__name__}
     try:
@@ -241,9 +253,9 @@ def filled(obj, tdgl):
 
 def call_args(form, arg, t_units):
     if arg == "arr":
-        x, y, z = (np.array([p[i] for p in POINTS], dtype=float) for i in range(3))
+        x, y, z = (np.array([p[i] for p in BASE], dtype=float) for i in range(3))
     else:
-        x, y, z = POINTS[int(arg[1]) - 1]
+        x, y, z = BASE[int(arg[1]) - 1]
     args = (x, y) if form in ("F2", "F2T") else (x, y, z)
     kw = {"t": t_units / Q} if form in ("F2T", "F3T") else {}
     return args, kw
@@ -257,12 +269,17 @@ def call_event(tdgl, obj, who, form, t_units):
     return {"ev": "call", "who": who, "f": form, "t": t_units, "obs": obs, "fill": filled(obj, tdgl)}
 
 
-ARR_PTS = {"arr": (0, 1, 2), "arr2": (2, 0, 1), "arr3": (1, 1, 0)}      # ParamAlg.ArgPts (0-based)
+ARR_PTS = {"arr": (0, 1, 2), "arr2": (2, 0, 1), "arr3": (1, 1, 0),       # ParamAlg.ArgPts (0-based)
+           "arrY": (3, 4, 5), "arrZ": (6, 7, 8), "arrI": (9, 10, 11), "i1": (9,), "i2": (10,)}
 # (content, buffer) per call, at one time: the same memory re-delivered with other content, slices and strided views of
 # base buffers overwritten in place, and temporaries created for the call in a loop
 DELIVERIES = [("arr", "b1"), ("arr2", "b1"), ("arr3", "b1"), ("arr", "b1"),
               ("arr", "v1"), ("arr2", "v1"), ("arr3", "s1"), ("arr", "s1"),
-              ("arr", "tmp"), ("arr2", "tmp"), ("arr3", "tmp"), ("arr", "tmp")]
+              ("arr", "tmp"), ("arr2", "tmp"), ("arr3", "tmp"), ("arr", "tmp"),
+              # fresh arrays in which only y, or only z, differs from the call before (parallel cuts, other heights)
+              ("arrY", "tmp"), ("arrZ", "tmp"), ("arr", "tmp"), ("arrZ", "b1"), ("arrY", "b1")]
+# integer-typed points: an int64 array, Python ints (expressions without ** : integer powers of integer arrays are numpy's)
+INT_DELIVERIES = [("arrI", "tmp"), ("i1", "tmp"), ("i2", "tmp")]
 
 
 class Buffers:
@@ -290,11 +307,16 @@ class Buffers:
 
 def deliver_form(tree):
     k = kinds(tree)
+    two, three = k & {"P2", "P2b", "K2", "KC2"}, k & {"P3", "P3b", "K3", "KC3"}
     if k & {"PT", "PTb"}:
-        return None if k & {"P2", "P2b"} else "F3T"
-    if k & {"P2", "P2b"}:
-        return None if k & {"P3", "P3b"} else "F2"
+        return None if two else "F3T"
+    if two:
+        return None if three else "F2"
     return "F3"
+
+
+def ops_of(tree):
+    return set() if tree["k"] != "N" else {tree["op"]} | ops_of(tree["l"]) | ops_of(tree["r"])
 
 
 def deliver_events(tdgl, obj, tree):
@@ -303,8 +325,16 @@ def deliver_events(tdgl, obj, tree):
         return []
     bufs, out = Buffers(), []
     t_units = 64 if form == "F3T" else 0
-    for a, b in DELIVERIES:
-        x, y, z = bufs.deliver(a, b)
+    sched = list(DELIVERIES)
+    if "pow" not in ops_of(tree):
+        sched += INT_DELIVERIES
+    for a, b in sched:
+        if a in ("arrI", "i1", "i2"):
+            pts = [POINTS[i] for i in ARR_PTS[a]]
+            x, y, z = ([int(p[c]) for p in pts] for c in range(3))
+            x, y, z = (np.array(v, dtype=np.int64) for v in (x, y, z)) if a == "arrI" else (x[0], y[0], z[0])
+        else:
+            x, y, z = bufs.deliver(a, b)
         args = (x, y) if form == "F2" else (x, y, z)
         kw = {"t": t_units / Q} if form == "F3T" else {}
         obs = observe(lambda: obj(*args, **kw))
@@ -325,7 +355,7 @@ def shipped_events(tdgl, obj, tree):
     loop = "CL" in ks
     out = []
     for t_units in (TIMES if td else [0]):
-        x, y, z = (np.array([p[i] for p in POINTS], dtype=float) for i in range(3))
+        x, y, z = (np.array([p[i] for p in BASE], dtype=float) for i in range(3))
         kw = {"t": t_units / Q} if td else {}
         try:
             with np.errstate(all="ignore"):
@@ -334,7 +364,7 @@ def shipped_events(tdgl, obj, tree):
                 obs = {"k": "o"}
             elif loop:
                 if "ref" not in _LOOP_REF:
-                    _LOOP_REF["ref"] = loop_reference(POINTS)
+                    _LOOP_REF["ref"] = loop_reference(BASE)
                 ref = _LOOP_REF["ref"][:, :2]
                 obs = {"k": "v", "v": [absval(e, tol=1e-6) for e in (v[:, :2] / ref).ravel().tolist()]}
             else:
@@ -374,11 +404,19 @@ COPY_CALLS = [("F2", 0), ("F3", 0), ("F3T", 192), ("F3T", 64)]
 
 def exercise(tdgl, item, tmp=None):
     """One enumerated expression -> trace of what the real objects did."""
+    try:
+        return _exercise(tdgl, item, tmp)
+    finally:
+        _UNIT[0] = None
+
+
+def _exercise(tdgl, item, tmp=None):
     import cloudpickle
 
     tree = item["tree"]
     ev = []
     tr = {"tree": tree, "ev": ev, "label": show(tree)}
+    _UNIT[0] = KCVAL if kinds(tree) & {"KC2", "KC3"} else None
     try:
         obj = build(tdgl, tree)
     except Exception as e:
@@ -406,7 +444,10 @@ def exercise(tdgl, item, tmp=None):
             ev += deliver_events(tdgl, obj, tree)
     if item.get("clear", True):
         ev.append(clear_event(tdgl, obj, "orig"))
-    for method in item.get("pickles", ["pickle", "cloudpickle"]):
+    # (tdgl.Constant wraps a function local to its constructor: the standard pickler cannot store a bare one - that is the
+    # standard pickler's rule for local functions, not the package's; inside a composite the operands go through cloudpickle)
+    bare_const = tree["k"] in CONSTS
+    for method in item.get("pickles", ["cloudpickle"] if bare_const else ["pickle", "cloudpickle"]):
         mod = pickle if method == "pickle" else cloudpickle
         try:
             blob = mod.dumps(obj)
@@ -477,14 +518,14 @@ def solve_tree(tdgl, args, tmp):
 # ---------------------------------------------------------------- TLC side
 
 
-def constants(max_level, mod, seed, mech, deep=9973):
-    lines = ["CONSTANTS", f" MaxLevel = {max_level}", f" SampleMod = {mod}", f" DeepMod = {deep}", f" SampleSeed = {seed}"]
+def constants(max_level, mod, seed, mech, deep=9973, var=1):
+    lines = ["CONSTANTS", f" MaxLevel = {max_level}", f" SampleMod = {mod}", f" DeepMod = {deep}", f" VarMod = {var}", f" SampleSeed = {seed}"]
     lines += [f" {k} = {'TRUE' if v else 'FALSE'}" for k, v in mech.items()]
     return "\n".join(lines) + "\n"
 
 
-def model_cfg(max_level, mod, seed, mech, invariants, spec="Spec", deep=9973):
-    return (constants(max_level, mod, seed % 9973, mech, deep) + f"SPECIFICATION {spec}\n"
+def model_cfg(max_level, mod, seed, mech, invariants, spec="Spec", deep=9973, var=1):
+    return (constants(max_level, mod, seed % 9973, mech, deep, var) + f"SPECIFICATION {spec}\n"
             + "".join(f"INVARIANT {i}\n" for i in invariants) + "CHECK_DEADLOCK FALSE\n")
 
 
